@@ -58,8 +58,10 @@ func (k msgServer) CreateReporter(goCtx context.Context, msg *types.MsgCreateRep
 		return nil, errors.New("address already exists")
 	}
 
-	if msg.CommissionRate.GT(math.LegacyNewDec(100)) {
-		return nil, errors.New("commission rate must be LTE 100 as that is a 100 percent commission rate")
+	// the commission rate is the fraction of a reward kept by the reporter (reward * rate): outside
+	// [0, 1] the reporter or its selectors would be credited negative amounts
+	if msg.CommissionRate.IsNil() || msg.CommissionRate.IsNegative() || msg.CommissionRate.GT(math.LegacyOneDec()) {
+		return nil, errors.New("commission rate must be between 0 and 1 as 1 is a 100 percent commission rate")
 	}
 	// set the reporter and set the self selector
 	if err := k.Keeper.Reporters.Set(goCtx, addr.Bytes(), types.NewReporter(msg.CommissionRate, msg.MinTokensRequired)); err != nil {
